@@ -6,6 +6,7 @@ Monitor: model-based.  The harness keeps, for every live application, a model ro
 every live application's [r.pattern for r in app.routes] must equal its model table, probe
 requests must be answered as the reference dispatcher predicts from the model table, and the
 attribute fingerprint of every unbound Route and of every embedded Application must be unchanged."""
+import os
 from ..common import Rng
 from .. import probe, spies, tables
 from ..models import dispatch as md
@@ -21,7 +22,7 @@ RULE = ('cases are histories (quick <=12, thorough <=40 operations, <=6 live app
         'failing add; distinct by hash of the operation list')
 ASSUMPTIONS = ['indices are interpreted as list.insert interprets them', 'patterns are leaves and probe paths canonical (no slash redirects)',
                'every application uses its own middleware type (no cross-application uniqueness merging)']
-REQUIRED_REACH = ['op:construct', 'op:add-route', 'op:add-tuple', 'op:add-subapp', 'op:embed-existing', 'op:rebind-route',
+REQUIRED_REACH = ['application-options-compared', 'application-options-compared:defaults', 'app-resource-named-like-a-route-resource', 'op:construct', 'op:add-route', 'op:add-tuple', 'op:add-subapp', 'op:embed-existing', 'op:rebind-route',
                   'op:failing-add', 'fail:unresolved', 'fail:conflict', 'fail:bad-pattern', 'fail:bad-middleware',
                   'fail:kth-of-subapp', 'fail:kth-of-subapp:k>1', 'index:negative', 'index:overshooting', 'index:negative-multi',
                   'route-bound-into>=2-apps', 'embedded-app-used-directly-later', 'probes-compared', 'fingerprints-compared', 'app-with-render-factory',
@@ -45,7 +46,7 @@ class World(object):
     def new_spec(self):
         self.n += 1
         return {'rid': 'r%d' % self.n, 'pattern': self.rng.pick(PATTERNS), 'methods': self.rng.pick(METHOD_SETS),
-                'beh': self.rng.pick(BEHS), 'render_arg': self.rng.chance(0.3)}
+                'beh': self.rng.pick(BEHS), 'render_arg': self.rng.chance(0.3), 'route_res': self.rng.chance(0.3)}
 
     def stamp_mw(self, label):
         from clastic import Middleware
@@ -79,6 +80,9 @@ class World(object):
         has_mw = self.rng.chance(0.5)
         mws = [self.stamp_mw(label)] if has_mw else []
         res = {'res_' + label: object()} if self.rng.chance(0.4) else {}
+        if self.rng.chance(0.35):
+            res['res_shared'] = object()     # a name that some routes carry as a resource of their own
+            self.sh.hit('app-resource-named-like-a-route-resource')
         if self.rng.chance(0.25):
             res['y'] = object()         # makes embedding a route with binding <y> fail here (conflict)
             specs = [s for s in specs if 'y>' not in s['pattern']]
@@ -88,9 +92,15 @@ class World(object):
             self.routes.append({'route': rt, 'spec': s, 'fp': self.route_fp(rt), 'bound': 1})
             entries.append(rt)
         factory = label if self.rng.chance(0.4) else None
+        # options given explicitly to one application are that application's: the next one built with defaults gets defaults
+        opts = {}
+        if self.rng.chance(0.45):
+            opts['slash_mode'] = self.rng.pick(['redirect', 'strict', 'rewrite'])
+        if self.rng.chance(0.3):
+            opts['debug'] = self.rng.pick([True, False])
         app = Application(entries, resources=res, middlewares=mws,
-                          render_factory=tables.make_factory(label) if factory else None)
-        a = {'app': app, 'label': label, 'mws': [label] if has_mw else [], 'resources': sorted(res), 'factory': factory,
+                          render_factory=tables.make_factory(label) if factory else None, **opts)
+        a = {'app': app, 'label': label, 'mode': opts.get('slash_mode', 'redirect'), 'debug': bool(opts.get('debug')), 'opts': sorted(opts), 'mws': [label] if has_mw else [], 'resources': sorted(res), 'factory': factory,
              'table': [dict(s, mws=[label] if has_mw else [], render=self.bound_render(s, factory)) for s in specs],
              'embedded_in': 0, 'used_after_embed': False}
         if factory:
@@ -289,6 +299,18 @@ class World(object):
                              % (self.ops[-1], a['label'], got, want), {'ops': self.ops})
                 self.dead = True
                 return
+        for a in self.apps:
+            if 'mode' not in a:
+                continue
+            handler = type(a['app'].error_handler).__name__
+            if a['app'].slash_mode != a['mode'] or (handler == 'ContextualErrorHandler') != a['debug']:
+                sh.violation('C11/application-options-differ', 'after %r: %s (constructed with %s) has slash_mode %r and error handler %s, '
+                             'expected slash_mode %r and %s' % (self.ops[-1], a['label'], a['opts'] or 'defaults', a['app'].slash_mode, handler,
+                                                               a['mode'], 'the debug handler' if a['debug'] else 'the plain handler'),
+                             {'ops': self.ops})
+                self.dead = True
+                return
+            sh.hit('application-options-compared' + (':defaults' if not a['opts'] else ''))
         for r in self.routes:
             sh.hit('fingerprints-compared')
             if self.route_fp(r['route']) != r['fp']:
@@ -359,20 +381,32 @@ def run_history(sh, rng, length, script=None):
         if len(w.apps) >= 6 and op in ('construct', 'embed-fresh'):
             op = 'add-route'
         done.append(op)
-        if op == 'construct':
-            w.op_construct()
-        elif op == 'add-route':
-            w.op_add_route('route')
-        elif op == 'add-tuple':
-            w.op_add_route('tuple')
-        elif op == 'rebind-route':
-            w.op_rebind_route()
-        elif op == 'embed-fresh':
-            w.op_embed(True)
-        elif op == 'embed-existing':
-            w.op_embed(False)
-        else:
-            w.op_failing_add()
+        try:
+            if op == 'construct':
+                w.op_construct()
+            elif op == 'add-route':
+                w.op_add_route('route')
+            elif op == 'add-tuple':
+                w.op_add_route('tuple')
+            elif op == 'rebind-route':
+                w.op_rebind_route()
+            elif op == 'embed-fresh':
+                w.op_embed(True)
+            elif op == 'embed-existing':
+                w.op_embed(False)
+            else:
+                w.op_failing_add()
+        except Exception as e:
+            import traceback
+            frames = traceback.extract_tb(e.__traceback__)
+            if not any(os.sep + 'clastic' + os.sep in fr.filename for fr in frames):
+                raise           # the harness's own problem
+            # every operation of a history is well formed (the failing adds catch their own, expected, refusals): clastic
+            # refusing one means an earlier operation left something behind
+            sh.violation('C11/well-formed-operation-refused', '%s after %r raised %s: %s'
+                         % (op, w.ops[-3:], type(e).__name__, str(e)[:200]), {'ops': w.ops})
+            w.dead = True
+            break
         if not w.dead:
             w.check_all()
     nontrivial = any(o[0] in ('embed', 'failing-add') for o in w.ops)
